@@ -539,6 +539,11 @@ def r8_settings_by_value(ctx):
               "it again compares equal, so nothing is recomputed")
 
 
+def r9_failed_request_forgotten(ctx):
+    from .c06 import r3_commit_after_success
+    r3_commit_after_success(ctx)
+
+
 RULES = [
     ("C03-R1", "a changed setting drops results on every storing path",
      r1_invalidate_on_change),
@@ -554,4 +559,6 @@ RULES = [
     ("C03-R7", "stored settings objects are never edited in place",
      r7_no_edit_behind_hash),
     ("C03-R8", "settings are stored by (deep) value", r8_settings_by_value),
+    ("C03-R9", "a failed preprocessing request leaves no remembered "
+     "pipeline behind", r9_failed_request_forgotten),
 ]
